@@ -122,10 +122,18 @@ func (r *dataReader) Read(b []byte) (n int, err error) {
 				r.state = stateEOF
 				continue
 			}
+			// Not part of .\r\n.
+			// Consume leading dot and emit saved \r.
+			r.r.UnreadByte()
+			c = '\r'
 			r.state = stateData
 		case stateCR:
 			if c == '\n' {
 				r.state = stateBeginLine
+				break
+			}
+			if c == '\r' {
+				// Still a candidate for \r\n.
 				break
 			}
 			r.state = stateData
